@@ -941,6 +941,35 @@ Proof.
   intros. unfold solo_step, step, fault_for, site_hits. simpl. destruct st, pk; simpl; rewrite ?H; reflexivity.
 Qed.
 
+Lemma step_create : forall n st pk rest e fd d r s,
+  solo_step n st pk (mk_writer ((TCreateTempInTargetDir, true) :: rest) e fd d r Running, s) =
+  match st with
+  | SCreate => (mk_writer [] e fd d (failres pk) Running, s)
+  | _ => (mk_writer rest e (Some (next_ino s)) d r Running, fst (fs_create 0 s))
+  end.
+Proof. intros. unfold solo_step, step, fault_for, site_hits. simpl. destruct st, pk; reflexivity. Qed.
+
+Lemma step_defer : forall n st pk b rest e fd d r s,
+  solo_step n st pk (mk_writer ((TDeferRemoveTmp, b) :: rest) e fd d r Running, s) =
+  (mk_writer rest e fd true r Running, s).
+Proof. intros. unfold solo_step, step, fault_for, site_hits. simpl. destruct st; reflexivity. Qed.
+
+Lemma step_gather : forall n st pk rest e fd d r s,
+  solo_step n st pk (mk_writer (opG :: rest) e fd d r Running, s) =
+  match st with
+  | SGather => (mk_writer [] e fd d (failres pk) Running, s)
+  | _ => (mk_writer rest e fd d r Running, s)
+  end.
+Proof. intros. unfold solo_step, step, fault_for, site_hits, opG. simpl. destruct st, pk; reflexivity. Qed.
+
+Lemma step_encode_fault : forall n pk rest e0 i d r s, e0 < n ->
+  solo_step n (SEncode e0) pk (mk_writer ((TEncodeAllToTmp, true) :: rest) e0 (Some i) d r Running, s) =
+  (mk_writer [] 0 (Some i) d (failres pk) Running, fs_write s i true).
+Proof.
+  intros. unfold solo_step, step, fault_for, site_hits. simpl.
+  assert (Hl : e0 <? n = true) by (now apply Nat.ltb_lt). rewrite Hl, Nat.eqb_refl. destruct pk; reflexivity.
+Qed.
+
 Lemma tail_run : forall n st pk i s,
   dir s (NTemp 0) = Some i ->
   fin (iter (solo_step n st pk) 5 (mk_writer (tl tail4) 0 (Some i) true ROk Running, s))
@@ -969,32 +998,24 @@ Proof.
   - (* no fault *)
     eapply fin_reach; [apply Hfull; congruence|lia].
   - (* create fails *)
-    apply fin_reach with (k := a + 2); [|lia]. unfold init_writer, canon.
+    apply fin_reach with (k := a + 3); [|lia]. unfold init_writer, canon.
     rewrite iter_add, gathers_skip by congruence.
-    simpl. unfold solo_step, fault_for, site_hits. simpl. destruct pk; unfold fin; simpl; auto.
+    rewrite iter_S, step_create. apply abort_run.
   - (* gather fails: the first gather in the program *)
     destruct a as [|a].
     + destruct c as [|c]; [lia|]. apply fin_reach with (k := 5); [|lia].
-      unfold init_writer, canon. simpl. unfold solo_step, step, fault_for, site_hits. simpl.
-      destruct pk; unfold fin; simpl; auto.
-    + apply fin_reach with (k := 2); [|lia]. unfold init_writer, canon. simpl.
-      unfold solo_step, step, fault_for, site_hits. simpl. destruct pk; unfold fin; simpl; auto.
+      unfold init_writer, canon. simpl repeat. simpl app.
+      rewrite iter_S, step_create. cbv iota. rewrite iter_S, step_defer. rewrite iter_S, step_gather.
+      apply abort_run.
+    + apply fin_reach with (k := 3); [|lia]. unfold init_writer, canon. simpl repeat. simpl app.
+      rewrite iter_S, step_gather. apply abort_run.
   - (* family j cannot be written *)
     destruct (Nat.ltb_spec j n) as [Hlt|Hge].
-    + apply fin_reach with (k := a + (2 + c) + (j + (1 + 2))); [|lia].
+    + apply fin_reach with (k := a + (2 + c) + (j + 3)); [|lia].
       rewrite iter_add, prefix_run by congruence. rewrite iter_add. unfold tail4 at 1.
       rewrite encode_loop; [|intros j' Hj'; inversion Hj'; subst; simpl; lia|simpl; lia].
-      rewrite iter_add. simpl (0 + j).
-      assert (E : solo_step n (SEncode j) pk
-                    (mk_writer ((TEncodeAllToTmp, true) :: tl tail4) j (Some 1) true ROk Running,
-                     fs_writes (fst (fs_create 0 (init_fs old))) 1 j) =
-                  (mk_writer [] 0 (Some 1) true (failres pk) Running,
-                   fs_write (fs_writes (fst (fs_create 0 (init_fs old))) 1 j) 1 true)).
-      { unfold solo_step, step, fault_for, site_hits. simpl.
-        assert (Hl : j <? n = true) by (now apply Nat.ltb_lt). rewrite Hl, Nat.eqb_refl.
-        destruct pk; reflexivity. }
-      simpl (iter _ 1 _). simpl (tl tail4) in E. unfold tail4. rewrite E. apply abort_run.
-    + eapply fin_reach; [apply Hfull; try congruence|lia]. intros j' Hj'. inversion Hj'. subst. lia.
+      simpl (0 + j). rewrite iter_S, step_encode_fault by auto. apply abort_run.
+    + eapply fin_reach; [apply Hfull; try congruence|lia].
   - eapply fin_reach; [apply Hfull; congruence|lia].
   - eapply fin_reach; [apply Hfull; congruence|lia].
   - eapply fin_reach; [apply Hfull; congruence|lia].
@@ -1101,6 +1122,6 @@ Lemma temp_may_remain_after_crash_lemma :
     w_status (s_ws s 0) = Crashed /\ temp_state (fun _ => 2) s 0 = TPartial /\
     target_state (fun _ => 2) s = TOldFile 420%Z.
 Proof.
-  exists [EStep 0 FNone; EStep 0 FNone; EStep 0 FNone; EStep 0 FNone; EStep 0 FNone; ECrash 0 true].
-  vm_compute. auto.
+  exists [EStep 0 FNone; EStep 0 FNone; EStep 0 FNone; EStep 0 FNone; ECrash 0 true].
+  vm_compute. repeat split; reflexivity.
 Qed.
